@@ -159,7 +159,7 @@ func enterBlock(pred, succ *ssa.BasicBlock, st nilState) nilState {
 			if n := st.of(phi.Edges[idx]); n != 0 {
 				ns[phi] = int32(n)
 			} else if k, ok := st.intOf(phi.Edges[idx]); ok {
-				ns[phi] = intBase + int32(k)
+				ns[phi] = intBase + int32(k+intBias)
 			}
 		}
 	}
@@ -243,6 +243,27 @@ func feasibleSuccs(blk *ssa.BasicBlock, st nilState, refineAll bool) []psItem {
 				return []psItem{{blk.Succs[0], with(x, 1)}, {blk.Succs[1], with(x, 2)}}
 			}
 			return []psItem{{blk.Succs[0], with(x, 2)}, {blk.Succs[1], with(x, 1)}}
+		}
+	}
+	// an ordering test between integers the state knows (loop counters over literals of fixed length)
+	if b, ok := cond.(*ssa.BinOp); ok {
+		x, okx := st.intOf(b.X)
+		y, oky := st.intOf(b.Y)
+		if okx && oky {
+			switch b.Op {
+			case token.LSS:
+				return pick(x < y)
+			case token.LEQ:
+				return pick(x <= y)
+			case token.GTR:
+				return pick(x > y)
+			case token.GEQ:
+				return pick(x >= y)
+			case token.EQL:
+				return pick(x == y)
+			case token.NEQ:
+				return pick(x != y)
+			}
 		}
 	}
 	// a bool value that feeds a phi (flag variables): record what the branch says about it
@@ -566,7 +587,10 @@ func mustPassFromBlock(b *ssa.BasicBlock, through func(ssa.Instruction) bool) (b
 
 type nilState map[ssa.Value]int32 // 1 nil / false, 2 non-nil / true, intBase+k: the small integer constant k
 
-const intBase = 1 << 20
+const (
+	intBase = 1 << 20
+	intBias = 1 << 18 // known integers lie in (-intBias, intBias)
+)
 
 func (s nilState) key() string {
 	var ks []string
@@ -581,13 +605,28 @@ func (s nilState) key() string {
 func (s nilState) intOf(v ssa.Value) (int64, bool) {
 	v = stripConv(v)
 	if c, ok := v.(*ssa.Const); ok && c.Value != nil && c.Value.Kind() == constant.Int {
-		if k, ok := constant.Int64Val(c.Value); ok && k >= 0 && k < intBase {
+		if k, ok := constant.Int64Val(c.Value); ok && k > -intBias && k < intBias {
 			return k, true
 		}
 		return 0, false
 	}
 	if n, ok := s[v]; ok && n >= intBase {
-		return int64(n - intBase), true
+		return int64(n-intBase) - intBias, true
+	}
+	// index arithmetic on known values (the counter of a loop over a literal of fixed length)
+	if b, ok := v.(*ssa.BinOp); ok && (b.Op == token.ADD || b.Op == token.SUB) {
+		x, okx := s.intOf(b.X)
+		y, oky := s.intOf(b.Y)
+		if okx && oky {
+			r := x + y
+			if b.Op == token.SUB {
+				r = x - y
+			}
+			// only short counters are followed (a loop over a literal of a few elements); longer loops are not unrolled
+			if r >= -1 && r <= 8 {
+				return r, true
+			}
+		}
 	}
 	return 0, false
 }
